@@ -179,7 +179,7 @@ PROPS = {
         "pf": True,
         "n": {"quick": 220, "thorough": 6000},
         "compare": "member",
-        "cone": ["Bytes", "Regex", "Generated", "Channel", "Network", "Replay", "SessionLemmas", "Netconf", "NcSession", "NcSessionLemmas", "NcSegLemmas", "NcExtraLemmas", "DecideLang", "GeneratedSkel", "InteractiveSrcDefs", "SendInputSrc", "BytesLemmas", "ChanTrace", "ChanTraceLemmas", "ChannelLemmas", "PlatformTypes", "Session", "RpcSrc", "DecideLemmas", "ReadUntilSrc", "ChanReadSrc"],
+        "cone": ["Bytes", "Regex", "Generated", "Channel", "Network", "Replay", "SessionLemmas", "Netconf", "NcSession", "NcSessionLemmas", "NcSegLemmas", "NcExtraLemmas", "DecideLang", "GeneratedSkel", "InteractiveSrcDefs", "SendInputSrc", "BytesLemmas", "ChanTrace", "ChanTraceLemmas", "ChannelLemmas", "PlatformTypes", "Session", "RpcSrc", "DecideLemmas", "ReadUntilSrc", "ChanReadSrc", "WriteSrc"],
         "rx": True,
         "rule": "the same CLI sessions with the transport reporting end-of-stream / a persistent read error after byte k, or failing a write; the "
                 "model prints every legal outcome of the race between the loss and the operation's consumption of already-queued chunks (the "
@@ -344,7 +344,7 @@ PROPS = {
     "C11": {
         "pf": True,
         "n": {"quick": 240, "thorough": 8000},
-        "cone": ["Bytes", "Regex", "Generated", "Channel", "Network", "ChanTrace", "ChanTraceLemmas", "Replay", "BytesLemmas", "PlatformTypes", "Session", "SessionLemmas"],
+        "cone": ["Bytes", "Regex", "Generated", "Channel", "Network", "ChanTrace", "ChanTraceLemmas", "Replay", "BytesLemmas", "PlatformTypes", "Session", "SessionLemmas", "DecideLang", "GeneratedSkel", "WriteSrc"],
         "rx": True,
         "rule": "the login dialogues of C10 and privilege escalations (device asks / grants without asking / refuses) run with a logger at "
                 "debug/info/critical and a channel log attached; secrets include format verbs, regex metacharacters, non-ASCII and the literal "
